@@ -107,6 +107,9 @@ type OpRec struct {
 	Seq   uint32 // payload sequence number of a send / recv
 	Sub   int    // sender index
 	Size  int
+	Side  byte // 'c' or 's'
+	// AcceptedAt is the number of bytes the sender's transport had taken when the call returned.
+	AcceptedAt int
 }
 
 // World is one simulated connection with its actors.
@@ -322,8 +325,10 @@ func (w *World) streamScript(a *Actor, st drpc.Stream, k int, side byte, sub int
 			p := MakePayload(uint32(k)<<8|uint32(sub), side, sseq, s.Size)
 			r := w.beginOp(a, "send", k)
 			r.Seq, r.Sub, r.Size = sseq, sub, s.Size
+			r.Side = side
 			sseq++
 			err := st.MsgSend(&p, w.Enc)
+			r.AcceptedAt = w.outOf(side).Total()
 			w.endOp(r, err)
 			a.logf("send(%d) -> %v", s.Size, err)
 		case "recv":
@@ -367,6 +372,8 @@ func (w *World) streamScript(a *Actor, st drpc.Stream, k int, side byte, sub int
 			if f, ok := st.(interface{ RawFlush() error }); ok {
 				err = f.RawFlush()
 			}
+			r.Side = side
+			r.AcceptedAt = w.outOf(side).Total()
 			w.endOp(r, err)
 			a.logf("flush -> %v", err)
 		case "cancel":
@@ -390,6 +397,13 @@ func (w *World) streamScript(a *Actor, st drpc.Stream, k int, side byte, sub int
 	return nil, false
 }
 
+func (w *World) outOf(side byte) *half {
+	if side == 's' {
+		return w.B.out
+	}
+	return w.A.out
+}
+
 // HandlerError is the error the handler of RPC k returns on "reterr".
 func (w *World) HandlerError(k int) error {
 	msg := fmt.Sprintf("herr-%d", k)
@@ -411,7 +425,32 @@ type codedErr struct {
 func (e *codedErr) Error() string { return e.msg }
 func (e *codedErr) Code() uint64  { return e.code }
 
-// checkRecv verifies a received payload: right RPC, right direction, per-sender order.
+// noteDelivery is called from inside the encoding's Unmarshal, i.e. while the library still
+// serialises receivers on the stream, so the order seen here is the delivery order even with
+// several concurrent receivers. It checks integrity and per-sender order (no reorder, no duplicate).
+func (w *World) noteDelivery(b []byte) {
+	tag, dir, seq, ok := PayloadInfo(b)
+	if !ok {
+		w.Violate("corrupt message delivered (len %d)", len(b))
+		return
+	}
+	if dir == 'p' {
+		return // probe echo
+	}
+	rpc, sub := int(tag>>8), int(tag&0xff)
+	key := fmt.Sprintf("%d/%c/%d", rpc, dir, sub)
+	w.mu.Lock()
+	prev := w.Recv[key]
+	if len(prev) > 0 && seq <= prev[len(prev)-1] {
+		w.mu.Unlock()
+		w.Violate("rpc %d dir %c sender %d: message seq %d delivered after seq %d (reordered or duplicated)", rpc, dir, sub, seq, prev[len(prev)-1])
+		return
+	}
+	w.Recv[key] = append(prev, seq)
+	w.mu.Unlock()
+}
+
+// checkRecv verifies that a received payload belongs to the receiver's own RPC and direction.
 func (w *World) checkRecv(k int, from byte, b []byte, r *OpRec) {
 	tag, dir, seq, ok := PayloadInfo(b)
 	if !ok {
@@ -423,15 +462,7 @@ func (w *World) checkRecv(k int, from byte, b []byte, r *OpRec) {
 		w.Violate("rpc %d (expecting dir %c): received a message of rpc %d dir %c", k, from, rpc, dir)
 		return
 	}
-	key := fmt.Sprintf("%d/%c/%d", k, from, sub)
 	w.mu.Lock()
-	prev := w.Recv[key]
-	if len(prev) > 0 && seq <= prev[len(prev)-1] {
-		w.mu.Unlock()
-		w.Violate("rpc %d dir %c sender %d: message seq %d received after seq %d (reordered or duplicated)", k, from, sub, seq, prev[len(prev)-1])
-		return
-	}
-	w.Recv[key] = append(prev, seq)
 	r.Seq, r.Sub, r.Size = seq, sub, len(b)-payloadOverhead
 	w.mu.Unlock()
 }
